@@ -727,11 +727,58 @@ impl RawOr for syn::Ident {
     }
 }
 
+pub const HELPER_NAMES: [&str; 8] = ["derive_ex", "ord", "partial_ord", "eq", "partial_eq", "hash", "debug", "default"];
+pub fn unraw(s: &str) -> &str {
+    s.strip_prefix("r#").unwrap_or(s)
+}
+fn attr_name(p: &syn::Path) -> Option<String> {
+    let seg = |s: &syn::PathSegment| -> Option<String> {
+        if s.arguments.is_none() { Some(unraw(&s.ident.to_string()).to_string()) } else { None }
+    };
+    match p.segments.len() {
+        1 if p.leading_colon.is_none() => seg(&p.segments[0]),
+        2 if seg(&p.segments[0]).as_deref() == Some("derive_ex") && seg(&p.segments[1]).as_deref() == Some("derive_ex") => {
+            Some("derive_ex".to_string())
+        }
+        _ => None,
+    }
+}
+/// the flattened real output with every helper attribute name spelled plainly (`# [ r#ord` -> `# [ ord`,
+/// `# [ :: derive_ex :: derive_ex` -> `# [ derive_ex`): the model prints an attribute it keeps under its plain name
+pub fn norm_attr_spelling(toks: &str) -> String {
+    let v: Vec<&str> = toks.split(' ').collect();
+    let mut out: Vec<&str> = Vec::with_capacity(v.len());
+    let mut i = 0;
+    while i < v.len() {
+        out.push(v[i]);
+        if v[i] == "[" && i > 0 && (v[i - 1] == "#" || (v[i - 1] == "!" && i > 1 && v[i - 2] == "#")) {
+            let mut j = i + 1;
+            if j < v.len() && v[j] == "::" { j += 1; }
+            let is_dx = |k: usize| k < v.len() && unraw(v[k]) == "derive_ex";
+            if is_dx(j) && j + 2 < v.len() && v[j + 1] == "::" && is_dx(j + 2) {
+                out.push("derive_ex");
+                i = j + 3;
+                continue;
+            }
+            if j == i + 1 && j < v.len() && v[j].starts_with("r#") && HELPER_NAMES.contains(&unraw(v[j]))
+                && !(j + 1 < v.len() && v[j + 1] == "::") {
+                out.push(unraw(v[j]));
+                i = j + 1;
+                continue;
+            }
+        }
+        i += 1;
+    }
+    out.join(" ")
+}
+
 fn attr(a: &syn::Attribute) -> Option<String> {
     if !matches!(a.style, syn::AttrStyle::Outer) {
         return no(line!());
     }
-    let name = a.path().get_ident().map(|i| i.to_string());
+    // the spelling of the name does not matter (F34): a raw identifier is the identifier, and `derive_ex` may be written
+    // with the path of its crate; the comparison normalises the spelling of the attributes that are kept (`norm_attr_spelling`)
+    let name = attr_name(a.path());
     match name.as_deref() {
         Some("derive_ex") => match &a.meta {
             syn::Meta::List(l) if matches!(l.delimiter, syn::MacroDelimiter::Paren(_)) => {
